@@ -262,6 +262,12 @@ public:
       O["k"] = "Cast";
       typeInfo(O, CS->getType());
       O["e"] = expr(CS->getSubExpr());
+      {
+        // a cast that is the body of a function-like macro (wordLeq01(a, b) = ((word)wordLeq(a, b))): keep the name
+        std::string M = macroNameInner(CS->getBeginLoc());
+        if (!M.empty())
+          O["m"] = M;
+      }
       return std::move(O);
     }
     if (auto *SO = dyn_cast<UnaryExprOrTypeTraitExpr>(E)) {
